@@ -913,6 +913,14 @@ theorem C15_orderedmap_queries (ops : List Op) :
       obtain ⟨e, he⟩ := getElem_of_bound (h.bound a (h.dsound k a hl).1)
       simp [delete_eq hl he]
 
+/-- **C15, attachment order (all histories).**  Following `next` from `head` — what `Clone` does, and what
+`ForEach` (so `Trigger`) does when nobody writes meanwhile — visits exactly the elements of the list, each
+once, in list order; with hook ids from the atomic counter appended at the tail this is attachment order. -/
+theorem C15_orderedmap_walk (ops : List Op) :
+    ∃ as, WF (run ops) as ∧ ∀ fuel, as.length < fuel → walk (run ops) fuel (run ops).head = as := by
+  obtain ⟨as, h⟩ := WF_run ops
+  exact ⟨as, h, fun fuel hf => walk_list h fuel hf⟩
+
 /-- Non-vacuity: three entries, the middle one is deleted — the list is `[0, 2]`, element `1` is
 allocated but outside the list (the hypotheses of the frozen-pointer clause), and it still points to
 element `2`. -/
